@@ -656,10 +656,12 @@ def to_term_assignment(v: Val, value):
     if isinstance(v, VStr):
         return [(v.t, z3.StringVal(value))]
     if isinstance(v, VSeq):
-        items = [v.kind.unwrap(lift(x)) for x in value]
-        default = items[0] if items else v.kind.unwrap(lift(0)) if v.kind.name != 'item' else None
-        if default is None:
-            raise OutOfSubset('cannot bind a sequence of opaque items')
+        if v.kind.name == 'item':
+            items = [native_item(x) for x in value]
+            default = native_item('<no item>')
+        else:
+            items = [v.kind.unwrap(lift(x)) for x in value]
+            default = items[0] if items else v.kind.unwrap(lift(0))
         arr = z3.K(z3.IntSort(), default)
         for k, it in enumerate(items):
             arr = z3.Store(arr, k, it)
@@ -711,6 +713,10 @@ def subst_val(v: Val, sub):
         if z3.is_int_value(n) and n.as_long() <= 64:
             return VPyList([subst_val(v.get(z3.IntVal(k)), sub) for k in range(n.as_long())])
         return v
+    if isinstance(v, VItem):
+        return VItem(s(v.t))
+    if isinstance(v, VItv):
+        return VItv(s(v.t))
     return v
 
 
